@@ -95,6 +95,13 @@ def mk_ops(rng, B, rem_bits, leafs, which=None):
     for v in (1, -1, 5, 1 << 64):
         add('store_uint(out of range)', lambda b, v=v: b.store_uint(v, 0), None, valid=False)
         add('store_int(out of range)', lambda b, v=v: b.store_int(v, 0), None, valid=False)
+    # an external address whose value does not fit its declared length (len:(## 9) external_address:(bits len)), zero length included
+    from pytoniq_core.boc.address import ExternalAddress
+    for ln, v in ((0, 5), (0, 1), (1, 2), (3, 8), (8, 256), (9, 1 << 20), (511, 1 << 511), (4, -1)):
+        if 11 + ln <= rem_bits:
+            add('store_address(ext value out of range)', lambda b, v=v, ln=ln: b.store_address(ExternalAddress(v, ln)), None, valid=False)
+    if 11 + 512 <= rem_bits:
+        add('store_address(ext length out of range)', lambda b: b.store_address(ExternalAddress(1, 512)), None, valid=False)
     if rem_bits >= 140:
         add('store_coins(2^120)', lambda b: b.store_coins(1 << 120), None, valid=False)
         add('store_coins(negative)', lambda b: b.store_coins(-5), None, valid=False)
